@@ -868,7 +868,7 @@ class Unit:
         if bad:
             # not a violation by itself and not a reason to hide real failures: remembered, and the
             # unit is undecided if nothing else fails
-            self.soft_undecided.append(dict(msg='%s: unclassified use of `%s` in %s at line(s) %s' % (file, flag, fn, bad), props=None))
+            self.soft_undecided.append(dict(msg='%s: unclassified use of `%s` in %s at line(s) %s' % (file, flag, fn, bad), props=['C18']))
         self.rewrites.append(('frame: %d uses of %s in %s, all in listed guards/call arguments' % (n, flag, fn), '%s:%d' % (file, s.line_of(lo)), 1))
         self.emit('// flaguse %s in %s: %d classified occurrences' % (flag, fn, n), ('tmpl', base, tline))
 
